@@ -209,7 +209,7 @@ theorem wStep_backend {w : W} (hw : WInv w) (now : Nat) (c : Call) :
   cases c with
   | put k mode data => rfl
   | mput k parts => rfl
-  | get k o => exact (readLoop_state hw k (fun be d => getAttempt be k d o) _).2.1
+  | get k o => exact (readLoop_state hw k _ _).2.1
   | getRanges k rs =>
       simp only [wStep, stepsOf, applySteps_nil]
       by_cases hr : rs.isEmpty
@@ -255,7 +255,7 @@ theorem wStep_inv {w : W} (hw : WInv w) (now : Nat) (c : Call) : WInv (wStep w n
   cases c with
   | put k mode data => exact stepOK_write hw _ (gen_put_order _) _ now k mode data
   | mput k parts => exact stepOK_write hw _ (gen_complete_order _) _ now k .overwrite _
-  | get k o => exact (readLoop_state hw k (fun be d => getAttempt be k d o) _).1
+  | get k o => exact (readLoop_state hw k _ _).1
   | getRanges k rs =>
       simp only [wStep]
       by_cases hr : rs.isEmpty
